@@ -958,6 +958,67 @@ func (x *Exec) iterateClosure(st *State, fr *Frame, cv Value, callee string, pos
 		for _, inv := range cc.IterInv {
 			st.assume(e.evalBool(inv.E))
 		}
+		// coverage promised by the callee: every argument tuple satisfying `covering` was passed
+		// at least once, so the callback's per-argument facts (iterpost: established by that
+		// invocation and stable afterwards, both proved on the callback unit) hold for it now -
+		// provided no invocation answered "stop" (`unless`), which the callback's own proved
+		// postconditions must exclude
+		if it.Covering != nil && len(cc.IterPost) > 0 {
+			if it.Unless != nil {
+				rst := st.clone()
+				sig := cv.Fn.Signature
+				var res []Value
+				for i := 0; i < sig.Results().Len(); i++ {
+					res = append(res, x.symbolic(rst, sig.Results().At(i).Type(), "cbres"))
+				}
+				ce := envOf()
+				ce.st, ce.old = rst, rst
+				for _, p := range cv.Fn.Params {
+					ce.names[p.Name()] = x.symbolic(rst, p.Type(), "cbany."+p.Name())
+				}
+				ce.results, ce.sig = res, sig
+				for _, en := range cc.Ensures {
+					func() {
+						defer func() {
+							if r := recover(); r != nil {
+								if _, ok := r.(*SpecError); !ok {
+									panic(r)
+								}
+							}
+						}()
+						rst.assume(ce.evalBool(en.E))
+					}()
+				}
+				ue := &SpecEnv{x: x, st: rst, old: rst, names: map[string]Value{}, pkg: calleeEnv.pkg}
+				for i, r := range res {
+					ue.names[fmt.Sprintf("$result%d", i)] = r
+				}
+				x.oblige(rst, "iter-nonstop", callee+":"+cv.Fn.Name(), mkNot(ue.evalBool(it.Unless)), pos)
+			}
+			ae := envOf()
+			we := &SpecEnv{x: x, st: st, old: st, names: map[string]Value{}, pkg: calleeEnv.pkg}
+			for k, v := range calleeEnv.names {
+				we.names[k] = v
+			}
+			var binders []string
+			x.underBinder++
+			for _, p := range cv.Fn.Params {
+				x.d.n++
+				bn := fmt.Sprintf("%s!c%d", sanitize(p.Name()), x.d.n)
+				binders = append(binders, "("+bn+" "+x.tc.sortOf(p.Type())+")")
+				bv := x.tc.unpack(nil, p.Type(), bn)
+				bv.T = p.Type()
+				ae.names[p.Name()] = bv
+				we.names["$"+p.Name()] = bv
+			}
+			cov := we.evalBool(it.Covering)
+			var posts []string
+			for _, ip := range cc.IterPost {
+				posts = append(posts, ae.evalBool(ip.E))
+			}
+			x.underBinder--
+			st.assume("(forall (" + strings.Join(binders, " ") + ") (=> " + cov + " " + mkAnd(posts...) + "))")
+		}
 		// the callback's own preconditions hold for every invocation: arbitrary
 		// arguments constrained only by what the callee promises (the with clause)
 		if len(cc.Requires) > 0 {
